@@ -731,7 +731,8 @@ class Evaluator:
                 heads = [x for _, x in s[1][2]] if s[1][0] == 'call' else [s[1]]
             elif k in ('assign', 'plusassign'):
                 heads = [s[2]]
-            if any(_has_effect_call(h) for h in heads) and not (e.why == 'void used as a value' and self.in_expr_msgs == 1):
+            if any(_has_effect_call(h) for h in heads) and not (e.why == 'void used as a value' and self.in_expr_msgs == 1
+                                                                and sum(_count_effect_calls(h) for h in heads) == 1):
                 # an effectful call sits inside an expression next to another fault: which one is met
                 # first depends on an evaluation order the documentation does not fix
                 raise Undefined('evaluation order inside one expression would be observable')
@@ -1758,6 +1759,14 @@ def _has_effect_call(e: list) -> bool:
     if k in ('assign', 'plusassign'):
         return _has_effect_call(e[2])
     raise AssertionError(k)
+
+
+def _count_effect_calls(e: T.Any) -> int:
+    """Number of effectful calls written anywhere inside the expression (whether evaluated or not)."""
+    if not isinstance(e, (list, tuple)):
+        return 0
+    n = 1 if (len(e) > 1 and e[0] == 'call' and e[1] in _EFFECT_CALLS) else 0
+    return n + sum(_count_effect_calls(x) for x in e)
 
 
 def file_has_syntax_fault(stmts: T.List[list]) -> bool:
